@@ -61,6 +61,28 @@ Theorem C11_computable_accepted_refuted :
 Proof. exact computable_accepted_refuted. Qed.
 Print Assumptions C11_computable_accepted_refuted.
 
+(* Pipeline.map(inputs, output_names=S [, auto_subpipeline=True]) on a pipeline without MapSpecs: the results for S
+   are the values of the full pipeline with the provided values substituted; the functions called are exactly the
+   functions of the sub-pipeline, each once *)
+Theorem C11_map_values_and_calls : forall body pick p inputs Sq auto store lg,
+  wf_pipeline p -> map_run body pick p inputs (Some Sq) auto = Ok (store, lg) ->
+  exists p', subpipeline p (akeys inputs) (Some Sq) = Ok p'
+    /\ (forall o, In o Sq -> exists v, aget store o = Some v /\ eval_top body pick p inputs o = Ok v)
+    /\ (forall f, In f p -> (In f p' <-> In (fname f) (map fst lg)))
+    /\ NoDup (map fst lg).
+Proof. exact map_run_spec. Qed.
+Print Assumptions C11_map_values_and_calls.
+
+(* calls_exactly_needed, guarded like the exactness above (FULL statement: without the root-only hypothesis;
+   refuted by the same witness as C11_subpipeline_needed_exact_refuted) *)
+Theorem C11_calls_exactly_needed_partial : forall body pick p inputs Sq auto store lg,
+  wf_pipeline p -> map_run body pick p inputs (Some Sq) auto = Ok (store, lg) ->
+  (forall k, In k (akeys inputs) -> is_output p k = false) ->
+  NoDup (map fst lg)
+  /\ forall f, In f p -> (In (fname f) (map fst lg) <-> exists o, In o Sq /\ In f (needed_top p inputs o)).
+Proof. exact map_calls_exactly_needed. Qed.
+Print Assumptions C11_calls_exactly_needed_partial.
+
 (* ---------- non-vacuity ---------- *)
 Definition ex_p : pipeline :=
   [ mkf (s "f") [s "a"; s "b"] [(s "x", s "x")] [] [] false;
@@ -71,4 +93,9 @@ Example ex_sub : wf_pipeline ex_p /\
   = Some [s "a"; s "c"].
 Proof. vm_compute. auto. Qed.
 Example ex_uncomputable : subpipeline ex_p [] (Some [s "c"]) = Err ValueError.
+Proof. vm_compute. reflexivity. Qed.
+Example ex_map :
+  option_map (fun r => (fst r, map fst (snd r)))
+    (match map_run Sym.body Sym.pick ex_p [(s "x", s "1")] (Some [s "c"]) false with Ok r => Some r | Err _ => None end)
+  = Some ([(s "a", s "out(a;f(x=1))"); (s "b", s "out(b;f(x=1))"); (s "c", s "g(a=out(a;f(x=1)),y=d_y)")], [s "f"; s "g"]).
 Proof. vm_compute. reflexivity. Qed.
